@@ -467,7 +467,9 @@ static void recovery_and_quiescence(snap_t* base) {
      (what could not be purged then is not purged again later) or purging is off */
   { long refused_purges = 0;
     for (long k = 0; k < vf_os.ncalls && k < VF_MAX_CALLS; k++) if (vf_os.calls[k].failed && (vf_os.calls[k].kind == VF_C_MADVISE || (vf_os.calls[k].kind == VF_C_MPROTECT && vf_os.calls[k].arg == PROT_NONE))) refused_purges++;
-    if (refused_purges == 0 && mi_option_get(mi_option_purge_delay) >= 0 && s.arena_resident_body > base->arena_resident_body) {
+    /* (a purge by reset only makes the pages reclaimable: they count as given back only when the modelled OS drops them at once) */
+    const int purge_gives_back = (mi_option_is_enabled(mi_option_purge_decommits) || vf_os.reset_zero);
+    if (refused_purges == 0 && purge_gives_back && mi_option_get(mi_option_purge_delay) >= 0 && s.arena_resident_body > base->arena_resident_body) {
       VIOL("arena-still-committed-after-recovery", "after recovery + free-all + mi_collect(true): %zu bytes of arena memory (beyond segment descriptor slices) are still resident (baseline %zu) although no purge request was refused", s.arena_resident_body, base->arena_resident_body);
       return;
     }
